@@ -89,6 +89,7 @@ type GhostField struct {
 	Name string
 	Key  string // "" (the object itself) or a ufun name applied to the object
 	Sort string // Int | Bool
+	Lo, Hi string // optional range assumed for every read
 }
 
 type Vocab struct {
@@ -229,6 +230,9 @@ func parseContractText(lines []string, file string, pkgPath string, voc *Vocab) 
 					if f[k+1] == "bool" {
 						g.Sort = "Bool"
 					}
+				}
+				if f[k] == "range" && k+2 < len(f) {
+					g.Lo, g.Hi = f[k+1], f[k+2]
 				}
 			}
 			voc.Ghost[g.Name] = g
